@@ -165,6 +165,28 @@ fn run(case: &Case, dir: &str) -> Verdict {
         }
         out = out2;
     }
+    // one history in four ends with a write transaction that changes nothing and commits: it is a
+    // commit like any other, so the state "before the newest commit" is then the same state
+    let empty_last = !upgrade && n_commits >= 1 && case.extra.get("empty_last").and_then(|x| x.as_bool()).unwrap_or(false);
+    let mut empty_commit_models: Option<(std::sync::Arc<MBucket>, std::sync::Arc<MBucket>)> = None;
+    if empty_last {
+        let mut e3 = props::engine_cfg(case, &path);
+        e3.keep_models = true;
+        e3.verify_commit = false;
+        e3.fsck_commit = false;
+        e3.oracles = vec![];
+        e3.stop_after_commit = Some(1);
+        let steps = vec![crate::step::Step::Begin { rw: true }, crate::step::Step::Commit];
+        let out3 = Engine::new(e3, Source::List(steps.into_iter().collect()), &arena).with_initial(out.final_model.clone()).run();
+        v.issued.extend(out3.issued.iter().cloned());
+        if out3.aborted.is_some() || out3.commits.len() != 1 {
+            v.aborted = out3.aborted.clone();
+            v.skipped = Some("the empty commit did not happen".into());
+            return v;
+        }
+        let c = out3.commits.last().unwrap();
+        empty_commit_models = Some((c.pre.clone(), c.post.clone()));
+    }
     let (mut img, len) = match simos::file_view(&path) {
         Some(x) => x,
         None => {
@@ -190,8 +212,12 @@ fn run(case: &Case, dir: &str) -> Verdict {
     };
     let newest = if h0.tx_id > h1.tx_id { h0 } else { h1 };
     let empty = MBucket::default();
-    let state_new: &MBucket = out.commits.last().map(|c| &*c.post).unwrap_or(&empty);
-    let state_old: &MBucket = out.commits.last().map(|c| &*c.pre).unwrap_or(&empty);
+    let mut state_new: &MBucket = out.commits.last().map(|c| &*c.post).unwrap_or(&empty);
+    let mut state_old: &MBucket = out.commits.last().map(|c| &*c.pre).unwrap_or(&empty);
+    if let Some((pre, post)) = &empty_commit_models {
+        state_new = post;
+        state_old = pre;
+    }
     if legacy && !upgrade {
         // rewrite both headers in the 0.10 format (same fields, SHA3-256)
         for slot in 0..2u64 {
@@ -210,6 +236,9 @@ fn run(case: &Case, dir: &str) -> Verdict {
     ex.skip_fsck = true;
     if upgrade {
         ex.counters.insert("legacy_file_then_commit_by_current_code".into(), 1);
+    }
+    if empty_last {
+        ex.counters.insert("history_ends_with_an_empty_commit".into(), 1);
     }
     // sanity: the undamaged image shows the newest state
     if let Err(iv) = ex.judge(&img, len, &[state_new], false) {
